@@ -31,6 +31,9 @@ type c02Case struct {
 	Target      string `json:"target"`
 	At          int    `json:"inject_at_call"` // number of granted calls after convergence
 	DurationS   int    `json:"duration_s"`
+	// SlowApply: the replicas' SQL threads apply what they received only every 8th second (instead of
+	// every 2nd): catching up with the most recent node takes several polls of waitForCatchUp
+	SlowApply bool `json:"slow_sql_threads,omitempty"`
 }
 
 const (
@@ -97,6 +100,9 @@ func c02RunFor(r *vt.Run, prop string, c c02Case, countOnly bool) (window int) {
 			}
 		})
 		h.daemonDynamics(true)
+		if c.SlowApply {
+			h.applyEvery = 8
+		}
 		for _, x := range spec.AllHosts() {
 			h.Spawn(x)
 		}
@@ -364,8 +370,8 @@ func checkC03B(r *vt.Run) {
 	window := c02RunFor(r, "C03", base, true)
 	r.R.Evaluations--
 	stride := 8
-	maxK := 120
-	kStride := 4
+	maxK := 130
+	kStride := 1 // every call: the window between two lock re-checks can be a single call wide
 	if r.Thorough() {
 		stride, maxK, kStride = 2, 260, 1
 	}
@@ -400,6 +406,10 @@ func checkC03B(r *vt.Run) {
 		if k == 40 {
 			r.Sample(c)
 		}
+		c02RunFor(r, "C03", c, false)
+		// the same with slow SQL threads: the lock can change hands while the catch-up is being awaited
+		c.SlowApply = true
+		r.Crumb(c)
 		c02RunFor(r, "C03", c, false)
 	}
 }
